@@ -31,6 +31,8 @@ pub struct Conn {
     pub a2p: VecDeque<u8>,
     pub p2a: VecDeque<u8>,
     pub app_closed: bool,
+    /// a copy of the application's descriptor survived an exec in a child process (it had no close-on-exec flag)
+    pub child_holds: bool,
     pub peer_closed: bool,
     pub state: CState,
     pub hello: u8,
@@ -176,6 +178,8 @@ pub struct World {
     pub horizon_hit: bool,
     /// O_NONBLOCK per model descriptor (from socket()/accept4() flags, fcntl F_SETFL)
     pub nb: Vec<bool>,
+    /// FD_CLOEXEC per model descriptor (socket()/accept4() flags, fcntl F_SETFD)
+    pub cloexec: Vec<bool>,
     /// per descriptor: the readiness (POLLIN / POLLOUT) the last would-block answer makes the caller wait for, 0 = none
     pub need: Vec<i16>,
     /// a ppoll whose requested events are not what the blocked operation needs: (operation, requested, needed)
@@ -230,6 +234,7 @@ impl World {
             ncalls: 0,
             horizon_hit: false,
             nb: Vec::with_capacity(4),
+            cloexec: Vec::with_capacity(4),
             need: Vec::with_capacity(4),
             wrong_events: None,
             stuck: None,
@@ -293,6 +298,33 @@ impl World {
         }
     }
 
+    pub fn cloexec_of(&self, fd: i32) -> Option<bool> {
+        self.sock_idx(fd).map(|i| self.cloexec[i])
+    }
+
+    /// Model `fork` + `exec` of a child that outlives the application's streams: the child gets a copy of
+    /// every open descriptor, exec closes exactly the copies that carry close-on-exec; the others stay
+    /// open in the child.  Returns the descriptors that leaked.
+    pub fn fork_exec(&mut self) -> Vec<i32> {
+        let mut leaked = Vec::new();
+        for i in 0..self.socks.len() {
+            if self.socks[i] == Sock::Closed || self.cloexec[i] {
+                continue;
+            }
+            leaked.push(FD_BASE + i as i32);
+            if let Sock::Stream(ci) | Sock::Connecting(ci) = self.socks[i] {
+                self.conns[ci].child_holds = true;
+            }
+        }
+        self.ev.push(Ev::Note("fork + exec of a long-lived child: it keeps every descriptor without close-on-exec"));
+        leaked
+    }
+
+    /// the peer's read reports end-of-stream: every reference to the application's end is closed
+    pub fn peer_sees_eof(&self, ci: usize) -> bool {
+        self.conns[ci].app_closed && !self.conns[ci].child_holds
+    }
+
     /// inbound bytes the application has not read (a greeting the peer sent earlier)
     pub fn prefill_rx(&mut self, fd: i32, n: usize) {
         if let Some(Sock::Stream(ci)) = self.sock_of(fd).cloned() {
@@ -340,7 +372,8 @@ impl World {
         self.sock_idx(fd).map(|i| &self.socks[i])
     }
 
-    fn new_sock(&mut self, s: Sock, nonblock: bool) -> i32 {
+    fn new_sock(&mut self, s: Sock, nonblock: bool, cloexec: bool) -> i32 {
+        self.cloexec.push(cloexec);
         self.socks.push(s);
         self.nb.push(nonblock || !self.menu.blocking_sleeps);
         self.need.push(0);
@@ -353,6 +386,7 @@ impl World {
             a2p: VecDeque::with_capacity(self.cap),
             p2a: VecDeque::with_capacity(self.cap),
             app_closed: false,
+            child_holds: false,
             peer_closed: false,
             state,
             hello: b'A' + id as u8,
@@ -548,7 +582,8 @@ impl World {
         let ret: i64 = match nr {
             libc::SYS_socket => {
                 let nonblock = a[1] & libc::SOCK_NONBLOCK as u64 != 0;
-                let fd = self.new_sock(Sock::Fresh { eagain_given: false }, nonblock);
+                let cloexec = a[1] & libc::SOCK_CLOEXEC as u64 != 0;
+                let fd = self.new_sock(Sock::Fresh { eagain_given: false }, nonblock, cloexec);
                 self.ev.push(Ev::Call { nr, fd, a: a[0] as i64, ret: fd as i64 });
                 return Decision::Force(fd as i64);
             }
@@ -575,7 +610,11 @@ impl World {
                         self.nb[i] = a[2] & libc::O_NONBLOCK as u64 != 0;
                         0
                     }
-                    libc::F_GETFD | libc::F_SETFD => 0,
+                    libc::F_GETFD => self.cloexec[i] as i64,
+                    libc::F_SETFD => {
+                        self.cloexec[i] = a[2] & libc::FD_CLOEXEC as u64 != 0;
+                        0
+                    }
                     _ => neg(libc::EINVAL),
                 },
                 None => return self.foreign(nr),
@@ -771,7 +810,8 @@ impl World {
             }
             Some(ci) => {
                 let nonblock = a[3] & libc::SOCK_NONBLOCK as u64 != 0;
-                let fd = self.new_sock(Sock::Stream(ci), nonblock);
+                let cloexec = a[3] & libc::SOCK_CLOEXEC as u64 != 0;
+                let fd = self.new_sock(Sock::Stream(ci), nonblock, cloexec);
                 self.accept_fds += 1;
                 unsafe {
                     let sa = a[1] as *mut u8;
